@@ -250,6 +250,24 @@ def findall(pattern, string):
     return res
 
 
+def split(pattern, string, maxsplit=0):
+    if not is_sym(string):
+        return _re.split(pattern, string, maxsplit)
+    ngroups = sp.parse(pattern).state.groups - 1
+    s = chars_of(string)
+    res, last, n = [], 0, 0
+    for a, b, g in finditer(pattern, string):
+        if maxsplit and n >= maxsplit:
+            break
+        res.append(mk(s[last:a]))
+        for k in range(1, ngroups + 1):
+            res.append(mk(s[slice(*g[k])]) if k in g else None)
+        last = b
+        n += 1
+    res.append(mk(s[last:]))
+    return res
+
+
 class SymMatch:
     def __init__(self, s, a, b, g):
         self.s, self.a, self.b, self.g = s, a, b, g
@@ -293,6 +311,9 @@ class PatProxy:
     def findall(self, s):
         return findall(self.pattern, s)
 
+    def split(self, s, maxsplit=0):
+        return split(self.pattern, s, maxsplit)
+
     def match(self, s):
         return match(self.pattern, s)
 
@@ -321,6 +342,7 @@ class ReModule:
 
     sub = staticmethod(sub)
     findall = staticmethod(findall)
+    split = staticmethod(split)
 
     @staticmethod
     def match(p, s, flags=0):
